@@ -4,3 +4,5 @@ import CbProofs.FlatIndex
 import CbProofs.RefPres
 import CbProofs.RefInv
 import CbProofs.Ladder
+import CbProofs.Render
+import CbProofs.RefConst
